@@ -215,7 +215,7 @@ Proof.
     replace (N.to_nat (8 * N.of_nat i)) with (8 * i)%nat by lia.
     unfold be_uint. rewrite skipn_length. replace (8 <=? length msg - 8 * i)%nat with true by (symmetry; apply Nat.leb_le; lia).
     replace (N.of_nat i + 1) with (N.of_nat (S i)) by lia.
-    rewrite IH by lia. cbn [seq map fold_left]. reflexivity.
+    rewrite IH by lia. cbn [seq map fold_left]. f_equal. f_equal.
 Qed.
 
 Lemma blocks64_split msg q : (8 * q < length msg)%nat -> (length msg <= 8 * q + 8)%nat ->
